@@ -41,10 +41,10 @@ def oracle(chk, s, p, got):
 def run(chk, runner_ok):
     rng = chk.rng
     model = Model("C17") if runner_ok else None
-    maxlen = chk.n(9, 13)
+    maxlen = chk.n(9, 15)
     texts = ["".join(t) for n in range(maxlen + 1) for t in itertools.product("a\n", repeat=n)]
     alpha = ["a", "b", "\n", "\n", "\r", "\x0b", "\x0c", " ", "\U0001F600", " "]
-    for _ in range(chk.n(500, 5000)):
+    for _ in range(chk.n(500, 30000)):
         texts.append("".join(rng.choice(alpha) for _ in range(rng.randint(0, 40))))
     impl = []
     nontrivial = 0
@@ -68,7 +68,7 @@ def run(chk, runner_ok):
         chk.correspond("LINECOL", texts, impl, outs)
     # positions with offsets, incl. negative and past-the-end offsets inside the text
     pcases = []
-    for _ in range(chk.n(2000, 20000)):
+    for _ in range(chk.n(2000, 100000)):
         s = "".join(rng.choice(alpha) for _ in range(rng.randint(1, 30)))
         a = rng.randint(0, len(s))
         b = rng.randint(a, len(s))
@@ -103,7 +103,7 @@ def dtd_tuple_positions(chk, model):
     rng = chk.rng
     cases, impl = [], []
     vals = ["x", "one two", "a\nb", "\nlead", "tail\n", "a\n\n  b\nccc", "", "&amp; <b>x</b>\n y"]
-    for _ in range(chk.n(300, 3000)):
+    for _ in range(chk.n(300, 12000)):
         ents = []
         for i in range(rng.randint(1, 3)):
             pre = rng.choice(["", "\n", "  ", "<!-- c -->\n", "\n\n<!-- c\nd -->\n"])
@@ -146,7 +146,7 @@ def entity_positions(chk):
     rng = chk.rng
     n_entries = 0
     for fmt in parsing.FORMATS + ["ftl"]:
-        for _ in range(chk.n(300, 3000)):
+        for _ in range(chk.n(300, 15000)):
             if fmt == "ftl":
                 from harness.props.c01 import FTL_TOKENS
                 text = "".join(rng.choice(FTL_TOKENS) for _ in range(rng.randint(0, 12)))
@@ -217,7 +217,7 @@ def check_positions(chk):
         for name, (refs, vals, fmtline) in CHECK_FILES.items():
             reftext = "\n".join(refs) + "\n"
             keys = ["a", "b", "c"]
-            for _ in range(chk.n(60, 600)):
+            for _ in range(chk.n(60, 3000)):
                 pad = "\n" * rng.randint(0, 3)
                 def val():
                     v = rng.choice(vals)
@@ -308,7 +308,7 @@ def android_positions(chk):
     def doc(v):
         return ('<?xml version="1.0" encoding="utf-8"?>\n<resources>\n  <string name="a">%s</string>\n'
                 '</resources>\n' % v)
-    for _ in range(chk.n(400, 4000)):
+    for _ in range(chk.n(400, 20000)):
         rv = "".join(rng.choice(toks) for _ in range(rng.randint(1, 5)))
         lv = "".join(rng.choice(toks) for _ in range(rng.randint(1, 3)))
         p = parser.getParser("strings.xml")
@@ -345,7 +345,7 @@ def lint_positions(chk):
             "x.dtd": lambda k, v: f'<!ENTITY {k} "{v}">\n', "x.ftl": lambda k, v: f"{k} = {v}\n"}
     try:
         for name, fl in line.items():
-            for _ in range(chk.n(60, 600)):
+            for _ in range(chk.n(60, 3000)):
                 keys = [rng.choice("abc") for _ in range(rng.randint(1, 6))]
                 head = "[Strings]\n" if name.endswith(".ini") else ""
                 text = head + "".join(("\n" * rng.randint(0, 2)) + ("  " if name.endswith(".dtd") and rng.random() < .3 else "")
